@@ -717,14 +717,15 @@ func (x *explorer) explore() {
 
 // ---------------------------------------------------------------------------------------------------------------
 
-func alphabet(thorough bool, cluster bool) []ctrlrun.Config {
-	days := []int{1, 7}
-	pols := [][]ctrlrun.Policy{nil, {{Timeout: "30s", MoveTo: "d1"}}, {{Timeout: "2h", MoveTo: "d1"}, {Timeout: "48h", MoveTo: "d2"}}}
-	sps := []string{"", "p1"}
-	if thorough {
-		pols = append(pols, []ctrlrun.Policy{{Timeout: "876000h", MoveTo: "d1"}}) // 100 years: more seconds than an int32 holds
-		sps = append(sps, "p2")
-	}
+var (
+	polNone  []ctrlrun.Policy
+	pol30s   = []ctrlrun.Policy{{Timeout: "30s", MoveTo: "d1"}}                                  // below both clamps
+	pol2h48h = []ctrlrun.Policy{{Timeout: "2h", MoveTo: "d1"}, {Timeout: "48h", MoveTo: "d2"}} // between / above the clamps
+	pol100y  = []ctrlrun.Policy{{Timeout: "876000h", MoveTo: "d1"}}                             // more seconds than an int32 holds
+)
+
+// alphabet: the cross product days × move policies × storage policies.
+func alphabet(cluster bool, days []int, pols [][]ctrlrun.Policy, sps []string) []ctrlrun.Config {
 	var out []ctrlrun.Config
 	for _, d := range days {
 		for _, p := range pols {
@@ -741,6 +742,33 @@ func alphabet(thorough bool, cluster bool) []ctrlrun.Config {
 				out = append(out, c)
 			}
 		}
+	}
+	return out
+}
+
+type plan struct {
+	name       string
+	cluster    bool
+	initPolicy string
+	configs    []ctrlrun.Config
+	maxFaults  int
+}
+
+func plans(thorough bool) []plan {
+	p3 := [][]ctrlrun.Policy{polNone, pol30s, pol2h48h}
+	out := []plan{
+		{"A12", false, "", alphabet(false, []int{1, 7}, p3, []string{"", "p1"}), 1},
+		{"A12", true, "", alphabet(true, []int{1, 7}, p3, []string{"", "p1"}), 1},
+		// two non-empty storage policies and a 100-year move, tables created with policy p1
+		{"AX4", false, "p1", alphabet(false, []int{7}, [][]ctrlrun.Policy{polNone, pol100y}, []string{"p1", "p2"}), 1},
+	}
+	if thorough {
+		out = append(out,
+			plan{"A6", false, "", alphabet(false, []int{7}, p3, []string{"", "p1"}), 2},
+			plan{"A4", true, "", alphabet(true, []int{7}, [][]ctrlrun.Policy{polNone, pol30s}, []string{"", "p1"}), 2},
+			plan{"A24", false, "p1", alphabet(false, []int{1, 7}, [][]ctrlrun.Policy{polNone, pol30s, pol2h48h, pol100y}, []string{"", "p1", "p2"}), 1},
+			plan{"A24", true, "", alphabet(true, []int{1, 7}, [][]ctrlrun.Policy{polNone, pol30s, pol2h48h, pol100y}, []string{"", "p1", "p2"}), 1},
+		)
 	}
 	return out
 }
@@ -823,39 +851,22 @@ func main() {
 		f, _ := os.Create(pf)
 		pprof.StartCPUProfile(f)
 	}
-	maxFaults := 1
-	if r.Thorough() {
-		maxFaults = 2
-	}
-	if s := os.Getenv("C19_MAX_FAULTS"); s != "" {
-		maxFaults, _ = strconv.Atoi(s)
-	}
-	type plan struct {
-		cluster    bool
-		initPolicy string
-		thoroughAB bool
-		maxFaults  int
-	}
-	var plans []plan
-	if !r.Thorough() {
-		plans = []plan{{false, "", false, maxFaults}, {true, "", false, maxFaults}}
-	} else {
-		// the small alphabet with two faulted runs per sequence, the large one (third storage policy, a 100-year
-		// move) with one
-		plans = []plan{{false, "", false, maxFaults}, {true, "", false, maxFaults}, {false, "p1", true, 1}, {true, "", true, 1}}
-	}
 	kinds := map[string]int64{}
 	outcomes := map[string]int64{}
 	per := map[string]any{}
-	for _, p := range plans {
+	for _, p := range plans(r.Thorough()) {
 		if r.Expired() {
 			break
 		}
-		x := &explorer{r: r, cluster: p.cluster, initPolicy: p.initPolicy, configs: alphabet(p.thoroughAB, p.cluster), maxDepth: 3,
-			maxFaults: p.maxFaults, workers: runtime.NumCPU(), faultKinds: kinds, outcomes: outcomes}
+		mf := p.maxFaults
+		if s := os.Getenv("C19_MAX_FAULTS"); s != "" {
+			mf, _ = strconv.Atoi(s)
+		}
+		x := &explorer{r: r, cluster: p.cluster, initPolicy: p.initPolicy, configs: p.configs, maxDepth: 3,
+			maxFaults: mf, workers: runtime.NumCPU(), faultKinds: kinds, outcomes: outcomes}
 		t0, tr0 := time.Now(), r.Transitions
 		x.explore()
-		per[fmt.Sprintf("%s/configs=%d/faulted_runs≤%d", x.label(), len(x.configs), p.maxFaults)] = map[string]any{
+		per[fmt.Sprintf("%s/alphabet=%s(%d configs)/faulted_runs≤%d", x.label(), p.name, len(x.configs), mf)] = map[string]any{
 			"states": x.stateCount, "runs": r.Transitions - tr0, "wall_s": time.Since(t0).Seconds()}
 	}
 	for k, v := range outcomes {
